@@ -144,8 +144,73 @@ def detect(ids):
     subprocess.run(["rm", "-rf", "/verif/replays"])
 
 
+def reconfirm_one(args):
+    wt, dirs = args
+    out = []
+    for d in dirs:
+        sid = os.path.basename(d)
+        patch = os.path.join(d, "patch.diff")
+        sh("git checkout -q -- . && git clean -fdq -- src examples", wt)
+        rc, o = sh(["git", "apply", "--check", patch], wt)
+        if rc != 0:
+            out.append((sid, "patch does not apply", {}))
+            continue
+        os.makedirs(os.path.join(wt, "out"), exist_ok=True)
+        for f in ("demo.rs", "demo.sh"):
+            src = os.path.join(d, f)
+            if os.path.exists(src):
+                dst = os.path.join(wt, "out", "demoX." + f.split(".")[1])
+                txt = open(src).read()
+                # demo scripts refer to their original location: point them at this worktree
+                for old in ("/tmp/seed/%s" % sid.split("-")[0], "/tmp/seed2/%s" % sid.split("-")[0]):
+                    txt = txt.replace(old, wt)
+                txt = txt.replace("demoA", "demoX").replace("demoB", "demoX")
+                open(dst, "w").write(txt)
+        for f in ("demoX.rs", "demoX.sh"):
+            pth = os.path.join(wt, "out", f)
+            if not os.path.exists(os.path.join(d, "demo." + f.split(".")[1])) and os.path.exists(pth):
+                os.remove(pth)
+        rc0, out0 = run_demo(wt, "X")
+        sh(["git", "apply", patch], wt)
+        b1, _ = sh(["cargo", "build", "--offline"], wt)
+        b2, _ = sh(["cargo", "build", "--offline", "--features", "verif_hooks"], wt)
+        t, to = sh(["cargo", "test", "--offline"], wt)
+        passed = "531 passed; 0 failed" in to
+        rc1, out1 = run_demo(wt, "X")
+        sh("git checkout -q -- . && git clean -fdq -- src examples", wt)
+        ok = b1 == 0 and b2 == 0 and passed and rc0 == 0 and rc1 != 0
+        out.append((sid, "confirmed" if ok else "NOT CONFIRMED", {"build": b1 == 0, "build_hooks": b2 == 0, "tests_531_pass": passed, "demo_exit_without_change": rc0, "demo_exit_with_change": rc1}))
+    return out
+
+
+def reconfirm():
+    """Re-confirms every kept change against /repo's current HEAD in fresh scratch worktrees."""
+    head = subprocess.run(["git", "-C", "/repo", "rev-parse", "--short", "HEAD"], stdout=subprocess.PIPE, text=True).stdout.strip()
+    dirs = sorted(glob.glob(os.path.join(OUT, "C*-*")))
+    n = 8
+    wts = []
+    for k in range(n):
+        wt = "/tmp/reconfirm-%d" % k
+        subprocess.run(["git", "-C", "/repo", "worktree", "remove", "--force", wt], stdout=subprocess.DEVNULL, stderr=subprocess.DEVNULL)
+        subprocess.run(["git", "-C", "/repo", "worktree", "add", "-q", "--detach", wt, "HEAD"], check=True)
+        wts.append(wt)
+    jobs = [(wts[k], dirs[k::n]) for k in range(n)]
+    with cf.ThreadPoolExecutor(max_workers=n) as ex:
+        for res in ex.map(reconfirm_one, jobs):
+            for sid, status, detail in res:
+                print(sid, status, detail)
+                mp = os.path.join(OUT, sid, "meta.json")
+                m = json.load(open(mp))
+                m["reconfirmed"] = {"repo_head": head, "status": status, **detail}
+                json.dump(m, open(mp, "w"), indent=1, ensure_ascii=False)
+    for wt in wts:
+        subprocess.run(["git", "-C", "/repo", "worktree", "remove", "--force", wt])
+
+
 if __name__ == "__main__":
-    if len(sys.argv) > 1 and sys.argv[1] == "confirm":
+    if len(sys.argv) > 1 and sys.argv[1] == "reconfirm":
+        reconfirm()
+    elif len(sys.argv) > 1 and sys.argv[1] == "confirm":
         confirm()
     elif len(sys.argv) > 1 and sys.argv[1] == "detect":
         detect(sys.argv[2:])
